@@ -246,6 +246,13 @@ fn one_case(ctx: &mut Ctx, index: u64, bytes: &[u8], class: &str) {
         if per_section[4] as usize != event_records {
             ctx.violation("event_line_count", format!("{event_records} event records but {} lines in [Events]", per_section[4]), index, bytes);
         }
+        // records that are single lines: what was written is what is read (file names in which the path
+        // standardisation produced "//" are defect D16 of C02: cut at the comment marker)
+        for (what, a, b) in [("background", &m.background_file, &m2.background_file), ("audio file", &m.audio_file, &m2.audio_file)] {
+            if a != b && !a.contains("//") {
+                ctx.violation("record_misread", format!("{what} {a:?} is read back as {b:?}"), index, bytes);
+            }
+        }
         if m2.bookmarks != m.bookmarks {
             ctx.violation("bookmarks_changed", format!("bookmarks {:?} read back as {:?}", m.bookmarks, m2.bookmarks), index, bytes);
         }
